@@ -189,6 +189,42 @@ func rulesC19(c *Ctx) {
 			}
 			R.Check("R1", fk, "submission via "+d.Name+" => counter advanced before success", c.P.InstrPos(s), okA,
 				"after outputs derived from a keyset counter were submitted successfully, the stored counter is advanced before the operation reports success", whyA)
+			if d.Name == "wallet/client.PostMeltBolt11" {
+				// a PENDING answer: the mint keeps the blank outputs and signs them when the payment settles, so
+				// they count as submitted for signing although no signature came back yet
+				pendingC, _ := c.P.ConstVal("cashu/nuts/nut05", "Pending")
+				onlyIncr := &Cond{Name: "counter advanced", Via: func(*ssa.Function) bool { return false }, Match: func(ft *Fact, _ *Origins) bool {
+					return ft.Kind == "errnil" && ft.Pos && ft.A.K == "call" && ft.A.Call != nil && c.isIncr(c.P.Describe(ft.A.Call))
+				}}
+				cutP := NewCut()
+				for e := range o.AcceptEdges(onlyIncr) {
+					cutP.Edges[e] = true
+				}
+				okP, whyP, nP := true, "", 0
+				for _, e := range o.AllEdges() {
+					ft := o.EdgeFact(e)
+					if ft == nil || ft.Kind != "cmp" || !ft.Pos || ft.Op.String() != "==" || !strings.HasSuffix(ft.A.String(), ".State") || !isConst(ft.B, pendingC) {
+						continue
+					}
+					if !ft.A.Has(func(x *Ex) bool { return x.K == "call" && x.Call == s }) {
+						continue
+					}
+					for _, r := range o.SuccessReturns() {
+						if reach, path := Reach(Point{e.To(), 0}, PointOf(r), cutP); reach {
+							nP++
+							okP = false
+							whyP = "success return at " + c.P.InstrPos(r) + " after a PENDING answer without advancing the counter past the submitted outputs: " + c.P.PathString(path)
+						} else if reach2, _ := Reach(Point{e.To(), 0}, PointOf(r), NewCut()); reach2 {
+							nP++
+						}
+					}
+				}
+				if nP == 0 {
+					okP, whyP = false, "no PENDING case found after the submission"
+				}
+				R.Check("R1", fk, "PENDING answer => counter advanced past the outputs the mint keeps", c.P.InstrPos(s), okP,
+					"when the mint answers PENDING it keeps the submitted blank outputs and signs them later; the stored counter is advanced past them before the operation returns", whyP)
+			}
 			// B: no increment unless the submission succeeded (only increments reachable from this submission)
 			for _, ic := range incrs {
 				if reach, _ := o.ReachAvoiding(s, ic, NewCut()); !reach {
